@@ -6,6 +6,7 @@ import (
 
 	"github.com/golang/geo/r2"
 	"github.com/golang/geo/s1"
+	"github.com/golang/geo/r3"
 	"github.com/golang/geo/s2"
 	"pgregory.net/rapid"
 
@@ -186,8 +187,12 @@ func genProjected(t *rapid.T) projCase {
 	for len(vs) < n {
 		l := fmt.Sprintf("x%d", len(vs))
 		var c s2.Point
-		if rapid.IntRange(0, 3).Draw(t, l+".back") == 0 {
+		if bk := rapid.IntRange(0, 5).Draw(t, l+".back"); bk == 0 {
 			c = vs[len(vs)-2] // go back along the same edge
+		} else if bk == 1 && maxLat == 90 {
+			// an exact pole as a chain vertex: its longitude is arbitrary, the chain
+			// arrives and leaves along different meridians
+			c = s2.Point{Vector: r3.Vector{X: 0, Y: 0, Z: float64(2*rapid.IntRange(0, 1).Draw(t, l+".pole") - 1)}}
 		} else {
 			c = ptDeg(rapid.Float64Range(-maxLat, maxLat).Draw(t, l+".lat"), rapid.Float64Range(-180, 180).Draw(t, l+".lng"))
 		}
